@@ -107,3 +107,89 @@ Example ex_unsigned_zero_loses_sign :
   let old := Build_sprint_mode true false ""%string ""%string "0.0000000000000000"%string "%#.*g"%string 17 in
   dfloatSprint old (2 ^ 63) = SText "0.0000000000000000"%string /\ scan_zero_text "0.0000000000000000"%string = Some 0.
 Proof. vm_compute. split; reflexivity. Qed.
+
+(* ---- sexpr.c writer / scanner (5586a2c) ---- *)
+
+(* the current sexpr.c has the modelled writer, including the '0' after a trailing point *)
+Lemma sx_writer_shape_all :
+  XP.sx_writer_ok = true /\ XP.sx_pad_point = true /\ XP.sx_expt_markers = "esfdlESFDL"%string.
+Proof. vm_compute. repeat split; reflexivity. Qed.
+
+Fixpoint all_digits (s : string) : bool :=
+  match s with EmptyString => true | String c t => is_digit c && all_digits t end.
+
+Lemma digit_not_alpha c : is_digit c = true -> is_alpha c = false.
+Proof.
+  unfold is_digit, is_alpha. intros H.
+  destruct (Z.of_nat (nat_of_ascii c)) eqn:E; lia.
+Qed.
+
+Lemma digit_not_point c : is_digit c = true -> Ascii.eqb c "."%char = false.
+Proof.
+  intros H. destruct (Ascii.eqb_spec c "."%char) as [->|]; [vm_compute in H; discriminate|reflexivity].
+Qed.
+
+(* writer on  digits "."  : nothing is a letter, so the point is padded and the marker added *)
+Lemma sx_mark_aux_digits_point mk prev ds :
+  all_digits ds = true ->
+  sx_mark_aux true mk prev (ds ++ "."%string)%string = (ds ++ ".0"%string ++ String mk "0"%string)%string.
+Proof.
+  revert prev. induction ds as [|c t IH]; intros prev H.
+  - reflexivity.
+  - cbn [all_digits] in H. apply andb_prop in H. destruct H as [Hc Ht].
+    cbn [append sx_mark_aux]. rewrite (digit_not_alpha c Hc). f_equal. apply IH. exact Ht.
+Qed.
+
+Lemma skip_digits_app ds rest :
+  all_digits ds = true -> starts_digit rest = false -> skip_digits (ds ++ rest)%string = rest.
+Proof.
+  induction ds as [|c t IH]; intros H Hr.
+  - cbn [append]. destruct rest as [|r u]; [reflexivity|]. cbn [starts_digit] in Hr. cbn [skip_digits]. rewrite Hr. reflexivity.
+  - cbn [all_digits] in H. apply andb_prop in H. destruct H as [Hc Ht].
+    cbn [append skip_digits]. rewrite Hc. apply IH; assumption.
+Qed.
+
+(* WHAT THE SCANNER ACCEPTS, trailing-point case (the case 5586a2c repairs): for every
+   non-empty digit string ds, optional '-', and marker s or e, the atom written for the
+   printf text  [-]ds"."  is a float token of sexpr.c's scanner. *)
+Lemma sx_trailing_point_accepted_all :
+  forall (neg : bool) (ds : string) (mk : ascii),
+    all_digits ds = true -> ds <> EmptyString -> (mk = "s"%char \/ mk = "e"%char) ->
+    sx_float_token (sx_mark mk ((if neg then "-"%string else ""%string) ++ ds ++ "."%string)%string) = true.
+Proof.
+  intros neg ds mk Hd Hne Hmk.
+  unfold sx_mark, sx_mark_gen. change XP.sx_pad_point with true.
+  assert (Hw : sx_mark_aux true mk false ((if neg then "-"%string else ""%string) ++ ds ++ "."%string)%string
+               = ((if neg then "-"%string else ""%string) ++ ds ++ ".0"%string ++ String mk "0"%string)%string).
+  { destruct neg.
+    - cbn [append sx_mark_aux]. change (is_alpha "-"%char) with false. cbv iota.
+      f_equal. apply sx_mark_aux_digits_point. exact Hd.
+    - cbn [append]. apply sx_mark_aux_digits_point. exact Hd. }
+  rewrite Hw. unfold sx_float_token.
+  assert (Hs : strip_sign ((if neg then "-"%string else ""%string) ++ ds ++ ".0"%string ++ String mk "0"%string)%string
+               = (ds ++ ".0"%string ++ String mk "0"%string)%string).
+  { destruct neg; cbn [append strip_sign].
+    - reflexivity.
+    - destruct ds as [|c t]; [congruence|]. cbn [all_digits] in Hd. apply andb_prop in Hd. destruct Hd as [Hc _].
+      cbn [append strip_sign]. replace (is_sign c) with false; [reflexivity|].
+      unfold is_sign. destruct (Ascii.eqb_spec c "-"%char) as [->|]; [vm_compute in Hc; discriminate|].
+      destruct (Ascii.eqb_spec c "+"%char) as [->|]; [vm_compute in Hc; discriminate|reflexivity]. }
+  rewrite Hs. rewrite skip_digits_app by (assumption || reflexivity).
+  destruct Hmk as [-> | ->]; vm_compute; reflexivity.
+Qed.
+
+(* the writer before 5586a2c produced a token the scanner refuses *)
+Example ex_sx_old_writer_rejected :
+  sx_mark_gen false "s"%char "16092042014752768."%string = "16092042014752768.s0"%string /\
+  sx_float_token "16092042014752768.s0"%string = false /\
+  sx_mark "s"%char "16092042014752768."%string = "16092042014752768.0s0"%string /\
+  sx_float_token "16092042014752768.0s0"%string = true.
+Proof. vm_compute. repeat split; reflexivity. Qed.
+(* the other shapes of "%#.17g" and the zero text *)
+Example ex_sx_tokens_accepted :
+  sx_float_token (sx_mark "e"%char "4.9406564584124654e-324"%string) = true /\
+  sx_float_token (sx_mark "s"%char "-0.0000000000000000"%string) = true /\
+  sx_float_token (sx_mark "e"%char "1.7976931348623157e+308"%string) = true /\
+  sx_float_token (sx_mark "s"%char "0.10000000149011612"%string) = true /\
+  sx_float_token (sx_mark "e"%char "inf"%string) = false.
+Proof. vm_compute. repeat split; reflexivity. Qed.
